@@ -415,6 +415,9 @@ func c13cases(env *core.Env) []c13case {
 	for r := 0; r < env.Pick(2, 8); r++ {
 		cs = append(cs, c13case{Part: "hugecancel", Rep: r})
 	}
+	for r := 0; r < env.Pick(1, 3); r++ {
+		cs = append(cs, c13case{Part: "manyfailures", Rep: r})
+	}
 	return cs
 }
 
@@ -725,6 +728,34 @@ func c13run(env *core.Env, idx int) core.CaseResult {
 		}
 		c13drive(a, g, dest, context.Background(), 1+r.Intn(8), r, &res, sig, cs)
 		res.Nontrivial = true
+	case "manyfailures":
+		// 120 unpackings in this process whose stream breaks off inside the data of a small entry (its first read fails),
+		// then a well-formed archive: what one unpacking loses, it must not take from the next one
+		a = c13build(cs.Rep)
+		first := a.entries[0]
+		for _, e := range a.entries {
+			if !e.Dir && len(e.Body) > 20 && len(e.Body) < 100<<10 {
+				first = e
+				break
+			}
+		}
+		for i := 0; i < 120; i++ {
+			t, err := hptar.NewReaderFS(context.Background(), bytes.NewReader(a.data[:first.BodyOff+10]), hptar.ReaderFSOptions{})
+			if err != nil {
+				break
+			}
+			select {
+			case <-t.Done():
+			case <-time.After(60 * time.Second):
+				res.Violate("C13|manyfailures|blocked", fmt.Sprintf("unpacking #%d of a stream that ends inside an entry's data did not finish within 60 s", i+1), cs)
+				return res
+			}
+		}
+		var prog int64
+		g := &gatedReader{a: a, cutAt: -1, mode: "none", pauseAt: -1, progress: &prog}
+		c13drive(a, g, nil, context.Background(), 2, r, &res, "C13|after-120-failed-unpackings|undisturbed", cs)
+		res.Nontrivial = true
+		res.Count("unpackings_after_many_failures", 1)
 	case "duplicate":
 		c13duplicate(cs, &res)
 	case "hugecancel":
